@@ -538,9 +538,11 @@ class Check:
         the verdict on the current tree: the property is judged by the obligations above, not by the self-test)."""
         import glob, shutil
         self.selftest = []
-        patches = sorted(glob.glob(os.path.join(VERIF, "seeded", self.prop_id + "-m*", "patch.diff")))
+        patches = sorted(glob.glob(os.path.join(VERIF, "seeded", self.prop_id + "-m*", "patch.diff"))) + \
+            sorted(glob.glob(os.path.join(VERIF, "benign", self.prop_id + "-b*", "patch.diff")))
         for patch in patches:
             name = os.path.basename(os.path.dirname(patch))
+            benign = os.path.basename(os.path.dirname(os.path.dirname(patch))) == "benign"
             tmp = tempfile.mkdtemp(prefix="aovc_selftest_")
             rec = {"change": name}
             try:
@@ -558,17 +560,23 @@ class Check:
                                    cwd=VERIF, env=env, capture_output=True, text=True, timeout=3600)
                 vio = [l for l in q.stdout.splitlines() if l.startswith("VIOLATION ")]
                 failed = [l for l in q.stdout.splitlines() if l.startswith("FAILED ")]
-                rec.update(exit=q.returncode, reported=bool(vio) and q.returncode == 1,
+                rec.update(exit=q.returncode, benign=benign, reported=bool(vio) and q.returncode == 1,
                            first=(failed[0] if failed else (vio[0] if vio else q.stdout.strip().splitlines()[-1:] or [""]))[:300] if (failed or vio) else "")
             except Exception as ex:
                 rec.update(result="self-test error: %r" % ex)
             finally:
                 shutil.rmtree(tmp, ignore_errors=True)
             self.selftest.append(rec)
-            print("SELFTEST change=%s -> %s" % (name, "reported (exit 1)" if rec.get("reported") else "NOT reported: %s" % rec))
-        surv = [r["change"] for r in self.selftest if "reported" in r and not r["reported"]]
+            if benign:
+                print("SELFTEST behaviour-preserving change=%s -> exit %s%s" % (name, rec.get("exit"), "  FALSE ALARM" if rec.get("reported") else ""))
+            else:
+                print("SELFTEST change=%s -> %s" % (name, "reported (exit 1)" if rec.get("reported") else "NOT reported: %s" % rec))
+        surv = [r["change"] for r in self.selftest if "reported" in r and not r["reported"] and not r.get("benign")]
         if surv:
             self.notes.append("self-test: seeded changes NOT reported by this check: %s" % ", ".join(surv))
+        fa = [r["change"] for r in self.selftest if r.get("benign") and r.get("reported")]
+        if fa:
+            self.notes.append("self-test: behaviour-preserving changes reported as violations (false alarms of this check): %s" % ", ".join(fa))
 
     def matches_known(self, open_known, o, nat):
         """a natively reproduced failure is a listed finding iff the native side tags it with that finding's id
